@@ -11,6 +11,7 @@ import Acra.Model.NPD
 import Acra.Lemmas.Bits
 import Acra.Lemmas.NPDWalk
 import Acra.Lemmas.NPDFits
+import Acra.Lemmas.ReviewC09Loop
 namespace Acra.Props.C09
 open Acra.Py Acra.Model.NPD Acra.Gen.NPD Acra.Lemmas.Bits Acra.Lemmas.NPD Acra.Lemmas.Walk
 
@@ -339,5 +340,52 @@ example : SegsReject .rs232 [0,0,0,1, 0,12, 0,0, 0,3,0xAA,0xBB] := .typed _ (by 
 example : (unpack fresh (npdHdrW 9 ++ [0,0,0,1, 0,12, 0,0, 1,2,3,4] ++ [0,0,0,1])).2 = .error .generic := by rfl
 /-- the F1 observation in this vocabulary: a segment declaring 100 bytes with 8 present FITS (the walk clamps) -/
 example : FitsSegs .base [0, 0, 0, 1, 0, 100, 0, 0] := .seg _ (by decide) trivial .done
+
+/-- what an accepted NPD packet returns, segment by segment (the packet-level counterpart of `NPDSegment_unpack_payload`;
+    `area` = the bytes after the declared header length): every segment object was decoded at some offset `o` of the
+    segment area where a complete 8-byte header stands, and holds exactly the bytes `area[o+8 : o+d]` for the length `d`
+    declared there — clamped at the end of the area, empty for `d < 8` — with `segmentlen` rewritten to 8 + that many
+    bytes.  So nothing that is not in the buffer is ever returned; but a declared length pointing past the end IS
+    accepted with a shorter payload (observation F1, notes/fti.md: the segment length is not among the checks). -/
+theorem NPD_accepted_every_segment (t : State) (buf : Bytes) (h : (unpack t buf).2 = .ok ()) :
+    ∀ g ∈ (unpack t buf).1.segments, ∃ o,
+      o + 8 ≤ (buf.drop (declaredHdrlen buf * 4)).length ∧
+      g.payload = slice ((buf.drop (declaredHdrlen buf * 4)).drop o) 8
+        (declaredSegLen ((buf.drop (declaredHdrlen buf * 4)).drop o)) ∧
+      g.segmentlen = max 8 (min (declaredSegLen ((buf.drop (declaredHdrlen buf * 4)).drop o))
+        ((buf.drop (declaredHdrlen buf * 4)).length - o)) ∧
+      g.payload.length + 8 = g.segmentlen := by
+  obtain ⟨h20, hl⟩ := NPD_accepted_length t buf h
+  obtain ⟨cc, fl, sq, ds, mc, ts, hh⟩ := NPD_hdr buf h20
+  revert h
+  simp only [unpack, hh, and_F, hl, ne_eq, not_true_eq_false, if_false, declaredHdrlen]
+  cases hd : decOff (decSeg (kindOf (declaredType buf))) moreNe (buf.drop (beNat (buf.take 1) % 16 * 4))
+      ((buf.drop (beNat (buf.take 1) % 16 * 4)).length + 1) 0 with
+  | error e => cases e <;> simp
+  | ok gs =>
+    simp only
+    intro _ g hg
+    have hw := Acra.Lemmas.ReviewC09.decOff_ok_walk _ _ _ _ _ _ hd
+    obtain ⟨o, n, _, _, hdec⟩ := Acra.Lemmas.ReviewC09.walk_mem _ _ _ _ _ hw g hg
+    simp only [decSeg] at hdec
+    split at hdec
+    · rename_i g' r hg'
+      simp only [Except.ok.injEq, Prod.mk.injEq] at hdec
+      obtain ⟨rfl, _⟩ := hdec
+      have hp := Seg_unpack_payload _ _ _ _ hg'
+      obtain ⟨hsl, h8⟩ := Seg_unpack_segmentlen _ _ _ _ hg'
+      simp only [List.length_drop] at h8
+      refine ⟨o, by simp only [List.length_drop]; omega, ?_, ?_, ?_⟩
+      · rw [hp, segPayload_eq]; rfl
+      · rw [hsl]; simp only [segLen, List.length_drop]; rfl
+      · rw [hp, hsl, segPayload_length _ (by simp only [List.length_drop]; omega)]
+        have := segLen_ge (List.drop o (List.drop (beNat (List.take 1 buf) % 16 * 4) buf))
+        omega
+    · cases hdec
+
+/-- witness: the accepted 32-byte packet returns one segment, payload = the 4 bytes after its header, `segmentlen` 12 -/
+example : (unpack fresh (npdHdrW 8 ++ [0,0,0,1, 0,12, 0,0, 1,2,3,4])).2 = .ok () ∧
+    (unpack fresh (npdHdrW 8 ++ [0,0,0,1, 0,12, 0,0, 1,2,3,4])).1.segments.map (fun g => (g.payload, g.segmentlen)) =
+      [([1,2,3,4], 12)] := ⟨rfl, rfl⟩
 
 end Acra.Props.C09
